@@ -84,14 +84,23 @@ def refAdd (M : Modulus) (x y : L4) : L4 :=
   let s3 := add64 x.l3 y.l3 s2.2
   condSub M ⟨s0.1, s1.1, s2.1, s3.1, s3.2⟩
 
-/-- masked add-back of the modulus, shared by `Sub` and `Opp` -/
-def addBack (M : Modulus) (d0 d1 d2 d3 b : Nat) : L4 :=
-  let m := cmovznz b 0 18446744073709551615
-  let a0 := add64 d0 (Nat.land m M.m0) 0
-  let a1 := add64 d1 (Nat.land m M.m1) a0.2
-  let a2 := add64 d2 (Nat.land m M.m2) a1.2
-  let a3 := add64 d3 (Nat.land m M.m3) a2.2
+/-- Fiat `Sub`: 4-limb subtract, then add back the modulus masked by the final borrow.
+`f mask` is the masked modulus (Fiat simplifies `mask & 0xff…f` to `mask`, so the shape of the
+masking differs between the two fields and is a parameter). -/
+def refSub (f : Nat → L4) (x y : L4) : L4 :=
+  let d0 := sub64 x.l0 y.l0 0
+  let d1 := sub64 x.l1 y.l1 d0.2
+  let d2 := sub64 x.l2 y.l2 d1.2
+  let d3 := sub64 x.l3 y.l3 d2.2
+  let m := cmovznz d3.2 0 18446744073709551615
+  let a0 := add64 d0.1 (f m).l0 0
+  let a1 := add64 d1.1 (f m).l1 a0.2
+  let a2 := add64 d2.1 (f m).l2 a1.2
+  let a3 := add64 d3.1 (f m).l3 a2.2
   ⟨a0.1, a1.1, a2.1, a3.1⟩
+
+def maskP (m : Nat) : L4 := ⟨Nat.land m 18446744069414583343, m, m, m⟩
+def maskN (m : Nat) : L4 := ⟨Nat.land m 13822214165235122497, Nat.land m 13451932020343611451, Nat.land m 18446744073709551614, m⟩
 
 def Mp : Modulus := ⟨0xfffffffefffffc2f, 0xffffffffffffffff, 0xffffffffffffffff, 0xffffffffffffffff, 0xd838091dd2253531⟩
 def Mn : Modulus := ⟨0xbfd25e8cd0364141, 0xbaaedce6af48a03b, 0xfffffffffffffffe, 0xffffffffffffffff, 0x4b0dff665588b13f⟩
